@@ -290,6 +290,13 @@ def construction(chk, P):
     chk.ob("C15.O4", "default_section is 'Variables'", isinstance(ds, Const) and ds.v == "Variables", site=site, found=ds, expect="Variables",
            key="C15.O4|default_section")
     ip = kw.get("interpolation")
+    if isinstance(ip, InstV):
+        from ..model import ExternalClass
+        if any(isinstance(c, ExternalClass) and c.name.endswith("ExtendedInterpolation") for c in ip.ci.mro()):
+            # the library's interpolation with methods overridden by the package: what ${...} then means is decided by code
+            # that runs inside the library's own get(); the parser model implements the library's ExtendedInterpolation only
+            raise AnalysisError("the parser's interpolation is %s, a subclass of ExtendedInterpolation defined by the package: placeholder "
+                                "resolution through its overridden methods is outside the parser model" % ip.ci.name)
     chk.ob("C15.O4", "interpolation is ExtendedInterpolation", isinstance(ip, Opaque) and "ExtendedInterpolation" in repr(ip.path), site=site,
            found=ip, expect="ExtendedInterpolation()", key="C15.O4|interpolation")
     extra = sorted(set(kw) - {"dict_type", "default_section", "interpolation"})
